@@ -99,9 +99,34 @@ NOTES = {
  'C16-sum-reads-slot0-when-all-absent': 'SumStream with every input absent evaluates `value[0].assume_init()` before discarding it (`then_some` is eager): only the interpreter on the build without the poisoning hook sees it',
  'C19-std-only-round-in-time-from-seconds': 'std builds round, no_std builds truncate in `Time::try_from(Quantity seconds)`: durations below 2^23 ns with a fractional nanosecond count',
  'C20-actuator-skips-inner-update-when-terminal-sees-nothing': 'actuator wrapper returns before `inner.update()` when its terminal sees nothing (leading rounds, cut link)',
+ 'C02-expirer-holds-input-borrow-while-reading-clock': 'Expirer keeps its borrow of the input while it reads the clock: never returns when the clock is a TimeGetterFromGetter over the same Mutex-backed sensor',
+ 'C05-f2q-drives-its-input-update': 'FloatToQuantity calls its input\'s own update() when the input is absent and returns early if that fails (stale value / stale error)',
+ 'C08-tooth-counts-truncated-to-integers': 'GearTrain::new truncates the first and last tooth entries to integers: lists whose first or last entry is not a whole number (12.5, 35.999996)',
+ 'C09-partner-nan-state-ignored': 'terminal state read skips a partner state that has a NaN component: the two ends of a link read different states',
+ 'C10-p2s-steady-state-fast-path-keeps-old-position': 'PositionToState: three consecutive exactly equal, non-zero difference quotients (constant-speed ramp): the fast path restamps the record but keeps the previous position',
+ 'C11-error-integral-clamped-at-1e30': 'CommandPID clamps its error integral at +-1e30 ("anti-windup"): values around 1e27 and more with tiny gains',
+ 'C13-command-div-subnormal-multiplies': '`Command / f32` treats every |v| < f32::MIN_POSITIVE as zero and multiplies: a subnormal command relayed from side 2 of a gear train is off by ratio^2',
+ 'C15-failed-set-restores-last-request-over-nested-set': 'Settable::set restores the previous last request when impl_set fails, erasing a successful NESTED set made from inside impl_set',
  'C19-libm-powf-whole-exponent-squaring': 'no_std+libm only: powf with a whole-number exponent by repeated squaring (dozens of ulps for large |n|, 0 for subnormal results)',
 }
 HISTORY = {
+ 'C02-expirer-holds-input-borrow-while-reading-clock': 'MISSED at both tiers: every clock of the stream world was a free-standing scripted object. One expirer / substitute-value node in eight now takes its '
+   'time from a sensor\'s own timestamps through the crate\'s TimeGetterFromGetter, preferably the sensor it reads (with shared lock-backed leaf References the clock then locks the object '
+   'the node is still holding). Caught at quick tier since (`C02|hang|comb`). Random plans also draw NaN, +-inf, -0.0, f32::MAX and subnormal leaf values now.',
+ 'C05-f2q-drives-its-input-update': 'would have been MISSED (extension written after reading the report): scripted sensors\' own update() always succeeded and no stream is supposed to call it. It can now be made '
+   'to fail (op SUE); a stream that drives its input and mishandles the failure shows as a stale value. Caught at quick tier.',
+ 'C08-tooth-counts-truncated-to-integers': 'would have been MISSED (same): tooth lists were integer counts 6..60. One list in eight now has a first or last entry that is not a whole number. Caught at quick tier.',
+ 'C09-partner-nan-state-ignored': 'would have been MISSED (same): state components were ordinary numbers. In the free-terminal plans 12 % of the components are now NaN, +-inf, -0.0, f32::MAX or subnormal, and '
+   'NaN / infinite expectations are compared exactly. Caught at quick tier.',
+ 'C10-p2s-steady-state-fast-path-keeps-old-position': 'MISSED at both tiers: values were drawn independently of the intervals, so three equal non-zero difference quotients in a row did not occur. 6 % of the '
+   'node runs are now exact ramps (equal steps on a fixed-rate grid, or slope x whole seconds on an irregular whole-second grid). Caught at quick tier since.',
+ 'C11-error-integral-clamped-at-1e30': 'MISSED at both tiers: magnitudes stayed below 1e6. 3 % of the PID / CommandPID runs now live at 1e27 with gains around 1e-24 and intervals of 1 ms..100 s '
+   '(outputs moderate, internal integrals beyond 1e30, every intermediate inside the f32 range). Caught at quick tier since.',
+ 'C13-command-div-subnormal-multiplies': 'MISSED at both tiers: subnormal command values had been taken out of the pool because the relay oracles could not tell an agreeing copy from a conflicting one down there. '
+   'They are back (1 %); a terminal that already holds an agreeing copy with the newest stamp is not judged on its value again, and bounded progress allows one subnormal step per hop, '
+   'scaled by the following ratios. Caught at quick tier since.',
+ 'C15-failed-set-restores-last-request-over-nested-set': 'would have been MISSED (same): the re-entrant motor never called set on itself. Mode 5 makes it apply a fall-back request of its own through the public '
+   'set before treating the outer request as usual. Caught at quick tier.',
  'C19-std-only-round-in-time-from-seconds': 'caught by C19/thorough (a motion-profile boundary one nanosecond off) but MISSED by C19/quick: the seconds handed to `Time::try_from` were moderate values, '
    'whose nanosecond counts have no fractional part in f32. Half of those conversions now use durations of a few ns to 8 ms with a .25 / .49 / .5 / .51 / .75 fractional nanosecond count, '
    'of either sign. Caught at quick tier since.',
